@@ -787,6 +787,11 @@ class XLinalg:
     def __getattr__(self, n):
         return getattr(numpy.linalg, n)
 
+    def cholesky(self, a):
+        if has_sym(a):
+            raise HarnessError("cholesky (LAPACK) of a symbolic matrix")
+        return numpy.linalg.cholesky(numpy.asarray(a, dtype=complex).real if not numpy.iscomplexobj(numpy.asarray(a, dtype=complex).real) else a)
+
     def det(self, a):
         if not has_sym(a):
             return numpy.linalg.det(a)
@@ -1005,6 +1010,17 @@ class XNP:
             if x.lin is not None and abs(float(m) - 2 * math.pi) < 1e-12:
                 # value changes by a multiple of 2 pi: keep the affine form for trig use, free the polynomial value
                 return SC(cur().fresh("mod2pi"), ZERO, x.lin)
+            if x.is_real() and not isinstance(m, SC) and float(m) > 0:
+                # y = x - m * k with an integer k and 0 <= y < m  (the value only: no affine / angle structure survives)
+                env = cur()
+                M = SC.lift(float(m)).re
+                k = z3.Int("modk!%d" % next(env._fresh))
+                y = env.fresh("mod")
+                env.axioms.append(y == x.re - M * z3.ToReal(k))
+                env.axioms.append(y >= 0)
+                env.axioms.append(y < M)
+                env.defs.append(("mod", (y.decl().name(),), (x.re, M)))
+                return SC(y)
             raise HarnessError("np.mod on a symbolic value")
         return numpy.mod(x, m)
 
@@ -2153,6 +2169,8 @@ def complete_valuation(env, val):
             val[names[0]] = abs(a[0])
         elif kind == "let":
             val[names[0]] = a[0]
+        elif kind == "mod":
+            val[names[0]] = a[0] - a[1] * math.floor(a[0] / a[1])
         elif kind == "recip":
             val[names[0]] = 1.0 / a[0] if a[0] != 0 else float("inf")
         elif kind == "gtrig":
